@@ -255,8 +255,10 @@ Definition reroot_outgroup (remove strict : bool) (t : utree) (names : list stri
               match edge_at P ks with
               | None => Err "model: bad path"
               | Some e =>
-                (* halves and support only "if length > 0"; p-value and comments are not copied *)
-                let ne := if qltb 0 (elen e) then mkE (qhalf (elen e)) (esup e) nilv [] else e0 in
+                (* halves "if length != NIL_LENGTH", support "if support != NIL_SUPPORT";
+                   p-value and comments are not copied *)
+                let ne := mkE (if qeqb (elen e) nilv then nilv else qhalf (elen e))
+                              (if qeqb (esup e) nilv then nilv else esup e) nilv [] in
                 (* root.neigh = [rootedge.Left(); rootedge.Right()] *)
                 let reversed := is_prefix (pp ++ [ks])%list (tv_root v) in
                 match cut_and_root t2 pp ks reversed ne ne with
@@ -271,8 +273,10 @@ Definition reroot_outgroup (remove strict : bool) (t : utree) (names : list stri
   end.
 
 (** ** MaxLengthPath(cur, prev), top-down: the path (slot indexes from [cur] downwards; Go keeps
-    the branches in the opposite order) and its length; [None] = "some branches have no length".
-    A path is recorded only when strictly longer than the current one, starting from 0. *)
+    the branches in the opposite order; [[]] = nil) and its length; [None] = "some branches have
+    no length".  A candidate is recorded when strictly longer than the current path, or when
+    there is no path yet (`|| potentialedges == nil`), so a path always ends at a tip. *)
+Definition no_path (p : list nat) : bool := match p with [] => true | _ => false end.
 Fixpoint mlp (t : utree) : option (list nat * Q) :=
   match t with
   | UNode _ _ sl =>
@@ -285,14 +289,14 @@ Fixpoint mlp (t : utree) : option (list nat * Q) :=
          match mlp c with
          | None => None
          | Some (p, l') =>
-           if qltb cur (l' + elen e)%Q then go (S i) r (i :: p) (l' + elen e)%Q
+           if qltb cur (l' + elen e)%Q || no_path best then go (S i) r (i :: p) (l' + elen e)%Q
            else go (S i) r best cur
          end
        end) 0 sl [] 0%Q
   end.
 
-(** MaxLengthPath(tip, nil) through the view from the tip's neighbour A: [Some p] = the path
-    goes from the tip to A and then down [p]; [None] = no path of positive length *)
+(** MaxLengthPath(tip, nil) through the view from the tip's neighbour A: the path goes from
+    the tip to A and then down [p] (the single candidate of the tip is always taken) *)
 Definition mlp_tip (v : tipview) : option (option (list nat) * Q) :=
   match tv_tree v with
   | UNode n c sl =>
@@ -301,7 +305,7 @@ Definition mlp_tip (v : tipview) : option (option (list nat) * Q) :=
       if qeqb (elen e) nilv then None else
       match mlp (UNode n c (set_nth (tv_slot v) None sl)) with
       | None => None
-      | Some (p, l) => if qltb 0 (l + elen e)%Q then Some (Some p, (l + elen e)%Q) else Some (None, 0%Q)
+      | Some (p, l) => Some (Some p, (l + elen e)%Q)
       end
     | _ => None
     end
@@ -351,7 +355,7 @@ Definition reroot_midpoint (t : utree) : res utree :=
                    end) (tip_paths t1) (Ok (MPNone, 0%Q)) in
   match scan with
   | Err m => Err m
-  | Ok (MPNone, _) => Err "panic: runtime error: index out of range [-1]"
+  | Ok (MPNone, _) => Err "cannot reroot at midpoint: all tip to tip paths have a null length"
   | Ok (MPBest v pA, curlength) =>
     let t2 := tv_tree v in
     let j := tv_slot v in
